@@ -31,6 +31,36 @@ theorem sortByPrio_perm (l : List Shard) : (sortByPrio l).Perm l := by
     unfold sortByPrio
     exact (insertByPrio_perm sh _).trans (List.Perm.cons sh ih)
 
+theorem insertByPrio_sorted (sh : Shard) (l : List Shard)
+    (h : l.Pairwise (fun a b => firstPrio a ≥ firstPrio b)) :
+    (insertByPrio sh l).Pairwise (fun a b => firstPrio a ≥ firstPrio b) := by
+  induction l with
+  | nil => simp [insertByPrio]
+  | cons x xs ih =>
+    rw [List.pairwise_cons] at h
+    unfold insertByPrio
+    split
+    · rename_i hge
+      rw [List.pairwise_cons]
+      refine ⟨?_, List.pairwise_cons.2 h⟩
+      intro y hy
+      rcases List.mem_cons.1 hy with rfl | hy'
+      · exact hge
+      · exact Int.le_trans (h.1 y hy') hge
+    · rename_i hlt
+      rw [List.pairwise_cons]
+      refine ⟨?_, ih h.2⟩
+      intro y hy
+      rcases List.mem_cons.1 ((insertByPrio_perm sh xs).mem_iff.1 hy) with rfl | hy'
+      · omega
+      · exact h.1 y hy'
+
+/-- the compound shard lists the inputs by descending priority of their first repository (ties keep the input order) -/
+theorem sortByPrio_sorted (l : List Shard) : (sortByPrio l).Pairwise (fun a b => firstPrio a ≥ firstPrio b) := by
+  induction l with
+  | nil => simp [sortByPrio]
+  | cons sh rest ih => unfold sortByPrio; exact insertByPrio_sorted sh _ ih
+
 /-- **C16, merge (content)**: for well-formed inputs `merge` succeeds; the compound shard shows exactly the documents of
     the live repositories of the inputs, in the order of the priority-sorted inputs; its documents are grouped by
     repository, every repository of the output is live and has documents -/
